@@ -39,7 +39,10 @@ def check(ctx):
                 "for the small sizes, boundary lengths 0,1,2,max-29..max for the large ones; 4- and 16-octet exporter addresses) is "
                 "fed through the collector's queue (for max-udp-size 64 after 2200 datagrams from an IPv6 exporter, which an IPv4 target "
                 "cannot take: MirrorDispatch.tla); the mirrored packet is captured with its IP header on a raw receive socket and "
-                "compared with the model's packet. One evaluation = one datagram; non-trivial = n > 0; distinct by (protocol, size, n, form).")
+                "compared with the model's packet. One evaluation = one datagram; non-trivial = n > 0; distinct by (protocol, size, n, form). "
+                "'Never crashes, never changes what is published': the real run() + shutdown() with mirroring enabled and a full queue; the "
+                "real ipfix / sflow workers with mirroring enabled (mirror queue drained / full) under the gate scheduler with pool probes "
+                "(trace validated by PipelineTrace.tla; Pipeline.tla WMirror / MirrorSend) and 4 in parallel under the race detector.")
     ctx.assumptions += ["raw sockets need CAP_NET_RAW (present in this sandbox); exporter addresses are taken from 127.0.0.0/8 so that loopback delivers them",
                         "the IP identification and header checksum are filled in by the kernel and not compared"]
     ctx.tlc_must_fail("MirrorMC", "asbuilt.cfg", files={"asbuilt.cfg": CFG % dict(max=64, cap=64, p4="FALSE", sport=55117, dport=4172, emit="FALSE")}, expect="Faithful", workers=2)
@@ -107,3 +110,12 @@ def check(ctx):
                 ctx.traces_validated += len(got)
     ctx.exhaustive = True
     ctx.sample({"proto": "ipfix", "max_udp_size": 64, "case": {"n": 36, "form": 16}, "model_packet": "IPv4Hdr(src, 127.0.0.1, 64) . UDPHdr(55117, port, 44) . payload"})
+    # "Mirroring never crashes the collector and never changes what is decoded and published":
+    #  - shutdown with mirroring enabled while 1000 datagrams are queued and the workers still drain them
+    #  - the real ipfix / sflow workers with mirroring enabled (copies taken like the mirror workers do, and the mirror
+    #    queue full), gate-scheduled with pool probes and validated by PipelineTrace.tla, and 4 in parallel under the
+    #    race detector: every published message is the stand-alone message of its own datagram (Pipeline.tla: WMirror,
+    #    MirrorSend, MirrorIsCopy, NoUseAfterPut; the 'returns its own buffer on a full mirror queue' variant refuted)
+    from props import c12, c15
+    c15.full_queue_shutdown(ctx, thorough, ["ipfix", "sflow"], mirror=True)
+    c12.check(ctx, want="C16")
